@@ -210,9 +210,11 @@ options_get_info(options_t     *options,     /* global options */
                 *comp_type = obj->comp.type;
                 *info      = obj->comp.info;
                 *szip_mode = obj->comp.szip_mode;
-                /* check if we have also CHUNK info  */
-                if (obj->chunk.rank > 0) {
-                    *chunk_flags              = HDF_CHUNK | HDF_COMP;
+                /* check if we have also CHUNK info, requested here or inherited from a chunked input
+                   object (whose chunk definition carries the compression of the chunks) */
+                if (obj->chunk.rank > 0 || (obj->chunk.rank != -2 && (*chunk_flags == HDF_CHUNK ||
+                                                                      *chunk_flags == (HDF_CHUNK | HDF_COMP)))) {
+                    *chunk_flags = (*comp_type > COMP_CODE_NONE) ? (HDF_CHUNK | HDF_COMP) : HDF_CHUNK;
                     chunk_def->comp.comp_type = *comp_type;
                     switch (*comp_type) {
                         case COMP_CODE_NONE:
